@@ -1,5 +1,5 @@
 """C17 — scoped settings restore exactly and never leak across threads."""
-import json, os, sys, threading, zlib
+import copy, json, os, sys, threading, zlib
 from harness.lib import tr as trlib
 from harness.translators import scope_defs
 
@@ -22,7 +22,7 @@ META = dict(
                 'only dynamic_evaluate(per_thread=False) and load_types_for_deserialization touch the process-wide store.'),
     level_note=('Trusted: Coq kernel; translator harness/translators/scope_defs.py; ScopesBase.v primitives (tied to thread_local.py by source fingerprints and by the correspondence); '
                 'extraction cross-checked against vm_compute. All 19 managers and the getters with logic (get_context, get_permission, current_mappings, get_dynamic_evaluate_fn) are regenerated from the source; '
-                'hand-written are only the specifications the generated loops are proved against (contextual_merge, detour_spec) and the top-of-stack read of the on-demand type registry. What the settings DO (formatting, type checking, ...) is not modelled: it is probed by the oracle only; values are small atoms / flat dicts.'),
+                'hand-written are only the specifications the generated loops are proved against (contextual_merge, detour_spec) and the top-of-stack read of the on-demand type registry. What the settings DO (formatting, type checking, ...) is not modelled: it is probed by the oracle only. Values are immutable in the model: aliasing between the stored options, the caller's argument dicts and dict objects shared between scopes / threads is decided by the oracle (arguments unchanged, deep restore, no leak) and by the correspondence.'),
     rule=('a case is a well-nested program (or 2-4 programs and an event schedule); distinct by canonical program text; non-trivial when some scope is nested inside another scope '
           'or is left by an exception, or when at least two threads are inside scopes at the same time'),
     trusted_base=['translator harness/translators/scope_defs.py (fail-closed Python-subset compiler)',
@@ -30,7 +30,7 @@ META = dict(
                   'extraction: ExtrOcamlBasic only; ocaml/main.ml lexer/printer; cross-checked against vm_compute on a sample',
                   'harness canonicalisation: real objects (functions, classes, timers, permissions) are mapped to small integers'],
     assumptions=['threading.local gives every thread its own attribute namespace (Python semantics)',
-                 'values held by settings are atoms or flat dicts of atoms; utils.merge on such dicts equals dict.update'],
+                 'values held by settings are atoms or dicts of atoms nested to any depth (string keys without path syntax); utils.merge on them is the deep merge of Model/ScopesBase.v atom_merge (checked by the correspondence)'],
 )
 GENERATED = {'Gen/ScopeDefs.v': scope_defs.translate}
 
@@ -47,6 +47,9 @@ KW_NAMES = dict(str=['compact', 'verbose', 'hide_default_values', 'hide_missing_
                 repr=['compact', 'verbose', 'hide_default_values', 'hide_missing_values'],
                 view=['enable_summary_tooltip', 'collapse_level', 'uncollapse', 'key_style'],
                 ctx=['a', 'b', 'c', 'd'])
+SUB_NAMES = ['hide_default_values', 'hide_frozen', 'custom', 'level']     # keys of dict-valued options, at any depth
+# dict objects that are passed (the same object) to several scopes / from several threads; as values: {'shared': i}
+SHARED_TEMPLATES = [{'d': [[1, True]]}, {'d': [[2, {'d': [[3, 1]]}], [0, False]]}]
 CTX_NAMES = ['x', 'y', 'z']
 TYPE_NAMES = ['TA', 'TB']            # T0 -> 'TA', T1 -> 'TB', T2 -> 'TA' (a second class with the same __name__)
 TIMER_NAMES = ['t0', 't1', 't2']
@@ -75,16 +78,35 @@ def pool():
   classes += users + wrappers
   types = [type(TYPE_NAMES[0], (), {}), type(TYPE_NAMES[1], (), {}), type(TYPE_NAMES[0], (), {})]
   fns = [None, (lambda x: 1), (lambda x: 2), (lambda x: 3)]
+  shared = [py_value(t, None) for t in SHARED_TEMPLATES]
   _POOL.update(pg=pg, flags=flags, thread_local=thread_local, contextual=contextual, formatting=formatting, timing=timing,
                error_utils=error_utils, json_conversion=json_conversion, permissions=permissions, execution=execution,
                class_detour=class_detour, hyper_base=hyper_base, dynamic_evaluation=dynamic_evaluation, views_base=views_base,
-               class_wrapper=class_wrapper, classes=classes, class_id={c: i for i, c in enumerate(classes)}, types=types,
+               class_wrapper=class_wrapper, shared=shared, classes=classes, class_id={c: i for i, c in enumerate(classes)}, types=types,
                type_id={c: i for i, c in enumerate(types)}, fns=fns, fn_id={id(f): i for i, f in enumerate(fns) if f is not None})
   return _POOL
 
 # ------------------------------------------------------------------------------------------------
 # wire encoding
+def norm_value(v):
+  """{'shared': i} -> the value of that shared dict; nested dict values are {'d': [[key, value], ...]}"""
+  if isinstance(v, dict):
+    if 'shared' in v:
+      return norm_value(SHARED_TEMPLATES[v['shared']])
+    return {'d': [[k, norm_value(x)] for k, x in v['d']]}
+  return v
+
+def py_value(v, shared):
+  """the real Python value of an argument value (shared dicts by identity)"""
+  if isinstance(v, dict):
+    if 'shared' in v:
+      return shared[v['shared']]
+    return {SUB_NAMES[k]: py_value(x, shared) for k, x in v['d']}
+  return v
+
 def e_atom(a):
+  if isinstance(a, dict):
+    return [4, [[k, e_atom(v)] for k, v in norm_value(a)['d']]]
   if a is None: return [0]
   if isinstance(a, bool): return [1, 1 if a else 0]
   if isinstance(a, int): return [2, a]
@@ -203,7 +225,8 @@ class Real:
     if k == 'perm':
       return P['permissions'].permission(P['permissions'].CodePermission(arg))
     if k in ('str', 'repr', 'view', 'ctx'):
-      kw = {KW_NAMES[k][n]: v for n, v in arg}
+      kw = {KW_NAMES[k][n]: py_value(v, P['shared']) for n, v in arg}
+      self.last_kw = (kw, copy.deepcopy(kw))
       if k == 'str': return P['formatting'].str_format(**kw)
       if k == 'repr': return P['formatting'].repr_format(**kw)
       if k == 'view': return P['views_base'].view_options(**kw)
@@ -225,14 +248,32 @@ class Real:
       return P['json_conversion'].JSONConvertible.load_types_for_deserialization(*[P['types'][t] for t in arg])
     raise ValueError(cm)
 
+  last_kw = None
+
   # -- conversion of real values --------------------------------------------------------------------
   def kw_pairs(self, kind, d):
     names = KW_NAMES[kind]
-    return [(names.index(k), self.atom(v)) for k, v in d.items()]
-  def atom(self, v):
+    return [(names.index(k) if k in names else -997, self.atom(v)) for k, v in d.items()]
+  def atom(self, v, seen=()):
+    """real value -> comparable / encodable value; never raises: a cyclic dict (a defect can merge a dict into itself) becomes -999,
+    anything unexpected -998"""
     if v is None or isinstance(v, (bool, int)):
       return v
-    raise TypeError('unexpected value %r' % (v,))
+    if isinstance(v, dict):
+      if id(v) in seen or len(seen) > 8:
+        return -999
+      return {'d': [[SUB_NAMES.index(k) if k in SUB_NAMES else -997, self.atom(x, seen + (id(v),))] for k, x in v.items()]}
+    return -998
+
+  def reset_shared(self):
+    """-> indices of shared argument dicts that were mutated; they are rebuilt from the templates"""
+    bad = []
+    for i, t in enumerate(SHARED_TEMPLATES):
+      if self.atom(self.P['shared'][i]) != norm_value(t):
+        bad.append(i)
+        self.P['shared'][i].clear()
+        self.P['shared'][i].update(py_value(t, None))
+    return bad
   def perm_bits(self, p):
     return None if p is None else int(p.value)
   def fn_id(self, f):
@@ -286,7 +327,13 @@ class Real:
     return [['flag', i] for i in range(len(self.info['flags']))] + GETTERS[1:]
 
   def snapshot(self):
-    return {json.dumps(g): self.get(g) for g in self.all_getters()}
+    out = {}
+    for g in self.all_getters():
+      try:
+        out[json.dumps(g)] = self.get(g)
+      except Exception as e:   # pylint: disable=broad-except
+        out[json.dumps(g)] = 'getter raised %s' % type(e).__name__
+    return out
 
   # -- behavioural probes: what the settings DO, read without any getter -------------------------------
   def _probe_objects(self):
@@ -460,7 +507,10 @@ class Interp:
       return
     if t == 'obs':
       self.gate()
-      self.obs.append(self.real.observe(p[1]))
+      try:
+        self.obs.append(self.real.observe(p[1]))
+      except Exception as e:   # pylint: disable=broad-except
+        self.obs.append([0, [2, -996]])           # the getter itself failed: an outcome, not a harness crash
       self.obs_g.append(p[1])
     elif t == 'raise':
       raise Boom()
@@ -520,6 +570,7 @@ def impl_single(real, prog):
     return in_fresh_thread(body)
   finally:
     real.reset_globals()
+    real.reset_shared()
 
 
 def impl_threads(real, progs, sched):
@@ -562,10 +613,28 @@ def impl_threads(real, progs, sched):
   out = [1, [r[0] for r in res], [r[1] for r in res], [r[2] for r in res], real.raw_global()]
   real.last_thread_getters = [r[3] for r in res]
   real.reset_globals()
+  real.reset_shared()
   return out
 
 # ------------------------------------------------------------------------------------------------
 # the direct oracle: the property text on the real library, independent of the model
+def deep_merge_pairs(old, new):
+  """reference deep merge on [(key, value)] lists with {'d': [...]} for dict values: a key whose old and new values are both dicts
+  is merged recursively in place of the old one; anything else replaces / is appended"""
+  out = [[k, v] for k, v in old]
+  for k, v in new:
+    hit = [e for e in out if e[0] == k]
+    if hit:
+      o = hit[0][1]
+      if isinstance(o, dict) and isinstance(v, dict):
+        hit[0][1] = {'d': [list(x) for x in deep_merge_pairs(o['d'], v['d'])]}
+      else:
+        hit[0][1] = copy.deepcopy(v)
+    else:
+      out.append([k, copy.deepcopy(v)])
+  return [(k, v) for k, v in out]
+
+
 def expected_inside(kind, arg, before, stack):
   """The documented nesting rule: what the manager's getter must return right after entering."""
   if kind in ('flag', 'timeit', 'dyn'):
@@ -575,8 +644,10 @@ def expected_inside(kind, arg, before, stack):
     return mine[-1] if mine else arg
   if kind == 'perm':
     return before if before is not None else arg          # outermost wins
-  if kind in ('str', 'repr', 'view', 'ctx'):
-    d = dict(before); d.update(py_dict_pairs([(k, v) for k, v in arg])); return list(d.items())
+  if kind == 'view':
+    return deep_merge_pairs(before, [[k, norm_value(v)] for k, v in arg])          # documented: a deep merge
+  if kind in ('str', 'repr', 'ctx'):
+    d = dict(before); d.update(py_dict_pairs([(k, norm_value(v)) for k, v in arg])); return list(d.items())
   if kind == 'contextual':
     d = dict(before)
     for k, v, c, a in arg:
@@ -638,8 +709,11 @@ class Oracle:
     entered = False
     exc = None
     inside = None
+    kwrec = None
     try:
-      with real.make_cm(cm, arg):
+      cmobj = real.make_cm(cm, arg)
+      kwrec = real.last_kw if kind in KW_NAMES else None
+      with cmobj:
         entered = True
         inside = real.snapshot()
         self.check_behaviour(inside, 'inside `with %s(%r)`' % (name, arg))
@@ -660,6 +734,9 @@ class Oracle:
         self.hit('C17/enter-fails/%s/%s' % (name, type(exc).__name__), 'entering %s(%r) raised %r' % (name, arg, exc))
     elif exc is not None and not isinstance(exc, Boom) and not (isinstance(exc, AssertionError) and self.expected_assert(body)):
       self.hit('C17/exit-raises/%s/%s' % (name, type(exc).__name__), 'leaving %s(%r) raised %r' % (name, arg, exc))
+    if kwrec is not None and kwrec[0] != kwrec[1]:
+      self.hit('C17/argument-mutated/%s' % name, 'the dict passed to %s(%r) was changed by the library (or by a scope nested in it): %r -> %r'
+               % (name, arg, kwrec[1], kwrec[0]))
     for k2 in before:
       if after[k2] != before[k2] and k2 not in self.tainted:
         self.tainted.add(k2)
@@ -709,6 +786,9 @@ def oracle_single(real, prog, behaviour=True):
     o.hit('C17/unexpected-exception/%s' % type(e).__name__, 'the program ended with %r' % (e,))
   if real.reset_globals():
     o.hit('C17/restore/process-wide-state-left-behind', 'a process-wide setting is still installed after the program ended')
+  bad = real.reset_shared()
+  if bad and not any(s_.startswith('C17/argument-mutated/') for s_, _ in o.hits):
+    o.hit('C17/argument-mutated/shared-dict', 'a dict object passed as an option value to several scopes was changed by the library: shared[%s]' % bad)
   return o.hits
 
 
@@ -786,12 +866,22 @@ def oracle_propagation(real):
 # ------------------------------------------------------------------------------------------------
 # generators
 ATOMS = [True, False, None, 0, 1, 2, 7]
+def gen_value(rng, depth):
+  """a dict-valued option nested up to `depth`, or one of the shared dict objects"""
+  r = rng.random()
+  if r < 0.3:
+    return {'shared': rng.randrange(len(SHARED_TEMPLATES))}
+  keys = rng.sample(range(4), rng.randint(0, 3))
+  return {'d': [[k, gen_value(rng, depth - 1) if (depth > 1 and rng.random() < 0.35) else rng.choice(ATOMS)] for k in keys]}
+
 def gen_arg(rng, kind):
   if kind == 'flag': return rng.choice([True, False, None])
   if kind == 'perm': return rng.choice([0, 1, 2, 3, 5, 9, 64, 128, 254, 255, rng.randrange(256)])
   if kind in ('str', 'repr', 'view', 'ctx'):
     names = rng.sample(range(4), rng.randint(0, 3))
-    return [[n, rng.choice(ATOMS)] for n in names]
+    # dict-valued options: any key of view_options (deep merge); only keys the behavioural probes do not interpret for the others
+    dict_ok = dict(view=(0, 1, 2, 3), str=(2, 3), repr=(2, 3), ctx=(1, 2, 3))[kind]
+    return [[n, gen_value(rng, 2) if (n in dict_ok and rng.random() < (0.6 if kind == 'view' else 0.25)) else rng.choice(ATOMS)] for n in names]
   if kind == 'contextual':
     names = rng.sample(range(3), rng.randint(0, 3))
     return [[n, rng.randint(0, 5), rng.random() < .4, rng.random() < .3] for n in names]
@@ -809,8 +899,12 @@ def gen_arg(rng, kind):
 
 SWEEP_POOL = dict(
     flag=[True, False, None], perm=[0, 3, 255],
-    str=[[], [[0, True]], [[0, False], [1, 2]]], repr=[[], [[0, True]], [[0, False], [1, 2]]],
-    view=[[], [[0, True]], [[0, False], [1, 2]]], ctx=[[], [[0, 1]], [[0, 2], [1, None]]],
+    str=[[], [[0, True]], [[0, False], [1, 2]], [[2, {'d': [[0, True]]}]], [[2, {'shared': 0}]]],
+    repr=[[], [[0, True]], [[0, False], [1, 2]], [[2, {'d': [[0, True]]}]], [[2, {'shared': 0}]]],
+    view=[[], [[0, True]], [[0, False], [1, 2]],
+          [[0, {'d': [[0, True]]}]], [[0, {'d': [[0, False], [2, 1]]}], [1, 2]], [[0, {'shared': 0}]], [[0, {'shared': 1}]],
+          [[0, {'d': [[1, False], [2, {'d': [[3, 2], [0, None]]}]]}]]],
+    ctx=[[], [[0, 1]], [[0, 2], [1, None]], [[1, {'d': [[0, True]]}]], [[1, {'shared': 0}]]],
     contextual=[[[0, 1, False, False]], [[0, 2, True, False]], [[0, 3, False, True], [1, 4, True, True]]],
     detour=[[[0, 1]], [[0, 2], [1, 0]], [[2, 0], [0, 3]]], wrappers=[[0], [1, 2]], timeit=[0, 1],
     dyn=[None, 1, 2], dyng=[None, 1, 2], loadtypes=[[], [0], [2, 1]])
@@ -1029,6 +1123,14 @@ def run(ctx):
     nev = sum(2 * prog_stats(p)[1] + len(thread_local_positions(p)) for p in ps)
     sched = [rng.randrange(n) for _ in range(rng.randint(nev // 2, nev + 2))]
     tcases.append((ps, sched))
+  # the same dict OBJECT passed as an option value by two threads, one of which overrides sub-keys in a nested scope
+  for k_, key_ in (('view', 0), ('str', 2), ('repr', 2), ('ctx', 1)):
+    g_ = ['obs', k_]
+    for sh in range(len(SHARED_TEMPLATES)):
+      t0 = ['scope', k_, [[key_, {'shared': sh}]], seq(g_, g_, g_)]
+      t1 = ['scope', k_, [[key_, {'shared': sh}]], seq(['scope', k_, [[key_, {'d': [[1, False], [2, 7], [0, {'d': [[3, 5]]}]]}]], g_], g_)]
+      for sched in ([0, 0, 1, 1, 1, 1, 1, 0, 0], [1, 1, 0, 0, 1, 1, 0, 1, 0], [1, 1, 1, 1, 1, 0, 0, 0, 0]):
+        tcases.append(([t0, t1], sched))
   thread_hits = []
   for ps, sched in tcases:
     out = impl_threads(real, ps, sched)
